@@ -83,7 +83,7 @@ func Harness_C11_sort() {
 func Harness_C11_normalize_bounded() {
 	vr.Unwind(12)
 	vr.Stub("sortCellIDs", "vrstub_sortIdentity")
-	n := vr.Choose("n", 0, vrC11N(4, 6))
+	n := vr.Choose("n", 0, vrC11N(4, 5))
 	cu := vrCellIDs("cu", n)
 	vr.Assume(vrSorted(cu))
 	x := vrLeaf("x")
@@ -101,7 +101,7 @@ func Harness_C11_normalize_bounded() {
 // id that is not smaller than the last one (what sorted input guarantees).
 func Harness_C11_normalize_step() {
 	vr.Unwind(12)
-	m := vr.Choose("m", 0, vrC11N(3, 5))
+	m := vr.Choose("m", 0, vrC11N(3, 4))
 	out := vrCellIDs("out", m)
 	vr.Assume(vrIsNormalized(out))
 	ci := vrValidCellID("ci")
@@ -267,7 +267,7 @@ func vrTODO_C11_range_tiling() {
 // and duplicates); range nodes are strictly increasing and bracket the whole curve.
 func Harness_C11_cellindex_contents_thorough() {
 	vr.Unwind(64)
-	n := vr.Choose("n", 1, vrC11N(2, 3))
+	n := vr.Choose("n", 1, 2)
 	ids := vrCellIDs("id", n)
 	idx := &CellIndex{}
 	for i, id := range ids {
